@@ -7,6 +7,7 @@ use cachelito_macros::cache;
 pub fn body2(a: u32, b: String) -> u64 { 0 }
 pub fn body1(a: u32) -> u64 { 0 }
 pub fn body3(a: u32, b: String, c: u32) -> u64 { 0 }
+pub fn body5(a: u32, b: String, c: u32, d: u32, e: String) -> u64 { 0 }
 pub fn body_v(a: Vec<u32>, b: Vec<u32>) -> u64 { 0 }
 pub fn body_t(p: (u32, u32), c: u32) -> u64 { 0 }
 pub fn body_res(a: u32) -> Result<u64, String> { Ok(0) }
@@ -126,6 +127,13 @@ pub fn g_three(a: u32, b: String, c: u32) -> u64 { body3(a, b, c) }
 
 #[cache_async(limit = 8)]
 pub async fn a_three(a: u32, b: String, c: u32) -> u64 { body3(a, b, c) }
+
+// five arguments (the largest arity the property quantifies over); a method with four
+#[cache(limit = 8)]
+pub fn g_five(a: u32, b: String, c: u32, d: u32, e: String) -> u64 { body5(a, b, c, d, e) }
+
+#[cache_async(limit = 8)]
+pub async fn a_five(a: u32, b: String, c: u32, d: u32, e: String) -> u64 { body5(a, b, c, d, e) }
 
 #[cache(limit = 8)]
 pub fn g_vecs(a: Vec<u32>, b: Vec<u32>) -> u64 { body_v(a, b) }
